@@ -351,14 +351,18 @@ def run(tier, replay=None):
     if tier == "quick":
         progs = quick_slice(progs)
     else:
-        progs = progs + mutants(progs, rng, 6000)
-        jscore = os.path.join(vlib.ROOT, "tools", "jscore.py")
-        if os.path.exists(jscore):
-            ck.assumptions.append("tools/jscore.py exists but its programs are not wired into C03 yet")
+        progs = progs + mutants(progs, rng, 4000)
+        # programs of the MiniJS generator that the language-level checks use (seeded; only compiled here)
+        try:
+            import jscore
+            for k, ast in enumerate(jscore.gen_programs(vlib.seed(), 1500, "c01")):
+                progs.append({"name": f"jscore/{k}", "src": jscore.render(ast), "kind": "script", "strict": False, "origin": "jscore"})
+        except Exception as e:      # the generator belongs to another check: its absence must not fail this one
+            ck.assumptions.append(f"tools/jscore.py programs not included ({type(e).__name__}: {e})")
     # programs that are also executed (dynamic half): scripts of the committed corpus; they are compiled through the
     # "run" path, which also captures blocks compiled later by eval / Function
     ndyn = 300 if tier == "quick" else 2500
-    dyn_idx = [i for i, p in enumerate(progs) if p["kind"] == "script" and p["origin"] != "mutant" and not p["strict"]]
+    dyn_idx = [i for i, p in enumerate(progs) if p["kind"] == "script" and p["origin"] in ("hand", "extracted") and not p["strict"]]
     rng.shuffle(dyn_idx)
     dyn_idx = set(dyn_idx[:ndyn])
     res = compile_all(binary, [p for i, p in enumerate(progs) if i not in dyn_idx])
@@ -383,7 +387,7 @@ def run(tier, replay=None):
         status[st] = status.get(st, 0) + 1
         if st in ("panic", "abort", "decode_panic", "?"):
             # the compiler (or the decoder walking its output) failed on a program the parser accepted
-            ck.failure({"kind": "compile-" + st, "where": re.sub(r"\d+", "N", str(r.get("panic") or r.get("abort"))[-80:])},
+            ck.failure({"kind": ("run-" if i in dyn_idx else "compile-") + st, "where": re.sub(r"\d+", "N", str(r.get("panic") or r.get("abort"))[-80:])},
                        {"program": p["src"], "name": p["name"], "result": {k: v for k, v in r.items() if k != "comps"}})
             continue
         if i in dyn_idx and depths_from is None:
@@ -397,7 +401,7 @@ def run(tier, replay=None):
 
     triples, depth_rows, states, trans = run_tlc_batches(ck, comps, tier, depths_from=depths_from)
 
-    blocks = instr = reached = excedges = 0
+    blocks = instr = reached = excedges = analysed = 0
     ops_seen = set()
     kinds = {}
     for meta, comp, resu in triples:
@@ -406,6 +410,9 @@ def run(tier, replay=None):
             instr += len(b["code"])
             ops_seen.update(i["op"] for i in b["code"])
         reached += resu["n"]
+        analysed += resu["nb"]
+        if resu["nb"] < len(comp["blocks"]):
+            raise vlib.ToolError(f"TLC analysed {resu['nb']} of {len(comp['blocks'])} blocks of a compilation")
         excedges += resu["x"]
         for v, (sig_, human) in zip(resu["v"], classify_all(comp, resu["v"])):
             kinds[v[0]] = kinds.get(v[0], 0) + 1
@@ -418,7 +425,7 @@ def run(tier, replay=None):
                               "violation": v, "code": excerpt(comp["blocks"][v[1] - 1], v[2])})
     real_ops = {s["op"] for s in sig if not s["op"].startswith("Reserved")}
     ck.cov.update(states=states, transitions=trans, traces_validated_against_impl=len(comps), programs=len(progs),
-                  program_status=status, blocks_checked=blocks, instructions_in_blocks=instr, abstract_states_expanded=reached,
+                  program_status=status, blocks_checked=blocks, block_analyses=analysed, instructions_in_blocks=instr, abstract_states_expanded=reached,
                   exceptional_edges=excedges, opcodes_in_engine=len(real_ops), opcodes_in_table=len(table_ops & real_ops),
                   opcodes_seen=len(ops_seen), opcodes_never_seen=sorted(real_ops - ops_seen), violation_kinds=kinds,
                   evaluations=reached + excedges, distinct_nontrivial=sum(1 for _m, c, _r in triples if any(b["handlers"] for b in c["blocks"])),
